@@ -54,6 +54,30 @@ def run(eng: Engine, ck: Check):
         ok = p is None and not any(s.kind == 'exit_return' for s in starts) and not eng.guards_at(at, clamp_if[0])
     if clamp_min and not incs:
         ok = True
+    # the same clamp written as one conditional store: `bucket = limit if <new> > limit else <new>` (expression or if/else statement)
+    plain = [st for f, st, v in writers if f is at and isinstance(st, ast.Assign)]
+    if plain and not incs and not ok:
+        def arm_bounded(conds, leaf) -> bool:
+            lt = unparse(expand_aliases(at, leaf))
+            if unparse(leaf) == 'self.limit_bps':
+                return True
+            if isinstance(leaf, ast.Call) and call_name(leaf) == 'min' and any(unparse(a_) == 'self.limit_bps' for a_ in leaf.args):
+                return True
+            for e_, pol_ in conds:
+                a_ = cmp_atom(e_)
+                if not a_:
+                    continue
+                l_, r_ = unparse(expand_aliases(at, a_[1])), unparse(expand_aliases(at, a_[2]))
+                if a_[0] in ('gt', 'ge') and not pol_ and l_ == lt and r_ == 'self.limit_bps':      # not (new > limit)
+                    return True
+                if a_[0] in ('lt', 'le') and pol_ and l_ == lt and r_ == 'self.limit_bps':           # new <= limit
+                    return True
+                if a_[0] in ('lt', 'le') and not pol_ and r_ == lt and l_ == 'self.limit_bps':       # not (limit < new)
+                    return True
+                if a_[0] in ('gt', 'ge') and pol_ and r_ == lt and l_ == 'self.limit_bps':           # limit >= new
+                    return True
+            return False
+        ok = all(arm_bounded(conds, leaf) for st in plain for conds, leaf in cond_values(eng, at, st))
     ck.ob('R-C20-CAP', at, at.node, 'add_tokens never leaves more than limit_bps (one second of traffic) in the bucket: clamp on every path', ok,
           'no `if bucket > limit_bps: bucket = limit_bps` (or min()) after the increment', construct='add_tokens clamps')
     # take_tokens: deducts exactly what it returns, only after refill reported non-empty
@@ -178,17 +202,38 @@ def run(eng: Engine, ck: Check):
                       construct=f'{caller.qualname} calls {callee}')
 
     # ---- R-C20-SHARED
-    fin = eng.func(NET, 'Network._finalize_peer_connection')
-    ck.visited(fin)
-    asg = {unparse(n.targets[0]): unparse(n.value) for n in walk_local(fin.node) if isinstance(n, ast.Assign)}
-    ok = asg.get('connection.download_rate_limiter') == 'self._download_rate_limiter' and asg.get('connection.upload_rate_limiter') == 'self._upload_rate_limiter'
-    ck.ob('R-C20-SHARED', fin, fin.node, 'file connections share the network-wide limiter objects (download<-download, upload<-upload, no copies)', ok, f'{asg}',
-          construct='finalize shares limiters')
-    for n in walk_local(fin.node):
-        if isinstance(n, ast.Assign) and 'rate_limiter' in unparse(n.targets[0]):
-            gs = [(unparse(e), pol) for e, pol, _ in eng.guards_at(fin, n)]
-            ck.ob('R-C20-SHARED', fin, n, 'the limiters are attached exactly to FILE connections', gs == [('connection.connection_type == PeerConnectionType.FILE', True)], f'{gs}',
-                  construct=f'finalize {unparse(n.targets[0])} on FILE')
+    # wherever a connection enters NEGOTIATING_TRANSFER (a file connection is finalised) it gets BOTH network-wide limiter objects, under the
+    # FILE test and nothing else
+    netc = eng.cls('Network', NET)
+    n_fin = 0
+    for fin in netc.methods.values():
+        for call in calls_on(fin.node, 'set_connection_state'):
+            if not (call.args and enum_member(call.args[0]) == 'NEGOTIATING_TRANSFER') or unparse(call.func.value) == 'self':
+                continue
+            n_fin += 1
+            ck.visited(fin)
+            cv = unparse(call.func.value)
+            blk = parent(enclosing_stmt(call))
+            sibs = [x for fld in ('body', 'orelse') for x in (getattr(blk, fld, []) or []) if any(y is enclosing_stmt(call) for y in getattr(blk, fld, []))]
+            asg = {unparse(n.targets[0]): unparse(n.value) for n in sibs if isinstance(n, ast.Assign)}
+            ok = asg.get(f'{cv}.download_rate_limiter') == 'self._download_rate_limiter' and asg.get(f'{cv}.upload_rate_limiter') == 'self._upload_rate_limiter'
+            ck.ob('R-C20-SHARED', fin, call, 'file connections share the network-wide limiter objects (download<-download, upload<-upload, no copies)', ok, f'{asg}',
+                  construct=f'finalize shares limiters in {fin.name}')
+            for n in sibs:
+                if isinstance(n, ast.Assign) and 'rate_limiter' in unparse(n.targets[0]):
+                    gs = [(unparse(e), pol) for e, pol, _ in eng.guards_at(fin, n) if 'connection_type' in unparse(e)]
+                    ck.ob('R-C20-SHARED', fin, n, 'the limiters are attached exactly to FILE connections', gs == [(f'{cv}.connection_type == PeerConnectionType.FILE', True)], f'{gs}',
+                          construct=f'finalize {unparse(n.targets[0])} on FILE in {fin.name}')
+    ck.floor('R-C20-SHARED.finalize', n_fin, 1)
+    # no other place hands a limiter to a connection (except the two setters checked below)
+    for fin in netc.methods.values():
+        if fin.name in ('set_upload_speed_limit', 'set_download_speed_limit'):
+            continue
+        for n in walk_local(fin.node):
+            if isinstance(n, ast.Assign) and any(isinstance(t_, ast.Attribute) and t_.attr in ('upload_rate_limiter', 'download_rate_limiter') and unparse(t_.value) != 'self' for t_ in n.targets):
+                side = 'upload' if 'upload_rate_limiter' in unparse(n.targets[0]) else 'download'
+                ck.ob('R-C20-SHARED', fin, n, 'a connection is only ever given the network-wide limiter of the same direction', unparse(n.value) == f'self._{side}_rate_limiter',
+                      unparse(n), construct=f'{fin.name} assigns {side} limiter')
     su = eng.func(NET, 'Network.set_upload_speed_limit')
     sd = eng.func(NET, 'Network.set_download_speed_limit')
     ck.visited(su)
